@@ -1,6 +1,7 @@
 package checks
 
 import (
+	"strings"
 	"bytes"
 	"crypto"
 	"crypto/rsa"
@@ -204,12 +205,118 @@ func c03Check(m *MClaims, c psatoken.IClaims, kp keyPair, validating bool, prep 
 	return ""
 }
 
+// c03Extension: sign -> decode -> verify for a valid claims-set of one of the
+// registered extension styles that the dispatching CBOR decoder can select.
+func c03Extension(t *rapid.T) (msg string, class string) {
+	var cands []extStyle
+	for _, es := range extStyles {
+		if es.CBORDisp {
+			cands = append(cands, es)
+		}
+	}
+	es := cands[rapid.IntRange(0, len(cands)-1).Draw(t, "ext.style")]
+	m := GenValid(t, es.Base, true)
+	if es.Base == P1 {
+		m.Profile = sp(P1Name)
+	}
+	var own []*int64
+	for i := range es.OwnKeys {
+		if genBool.Draw(t, fmt.Sprintf("ext.own%d", i)) {
+			v := rapid.Int64Range(0, 1<<40).Draw(t, fmt.Sprintf("ext.own%d.val", i))
+			if extRuleBroken(&v) {
+				v = 14
+			}
+			own = append(own, &v)
+		} else {
+			own = append(own, nil)
+		}
+	}
+	kp := keyFor(rapid.SampledFrom([]int64{icose.EdDSA, icose.ES256, icose.ES384}).Draw(t, "ext.alg"), rapid.IntRange(0, 2).Draw(t, "ext.key"))
+	validating := genBool.Draw(t, "ext.validating")
+	class = es.Label + "|" + m.ClassVector()
+	withExtStyles(func() {
+		c, err := es.build(m, own...)
+		if err != nil {
+			msg = "VERIF-INFRA: " + err.Error()
+			return
+		}
+		want, err := psatoken.ValidateAndEncodeClaimsToCBOR(c)
+		if err != nil {
+			msg = fmt.Sprintf("valid %s claims do not validate-and-encode: %v", es.Label, err)
+			return
+		}
+		ev := &psatoken.Evidence{}
+		if err := ev.SetClaims(c); err != nil {
+			msg = "SetClaims of a valid set failed: " + err.Error()
+			return
+		}
+		var tok []byte
+		if validating {
+			tok, err = ev.ValidateAndSign(kp.Signer())
+		} else {
+			tok, err = ev.Sign(kp.Signer())
+		}
+		if err != nil {
+			msg = fmt.Sprintf("signing valid %s claims with %s failed: %v", es.Label, kp.Name(), err)
+			return
+		}
+		parts, ok := icose.Split(tok)
+		if !ok || !bytes.Equal(parts.Payload, want) {
+			msg = fmt.Sprintf("the payload of the token is not the validated encoding of the claims:\n  payload %x\n  encoding %x", parts.Payload, want)
+			return
+		}
+		if !icose.Verify(kp.Alg, kp.Pub, parts.Protected, parts.Payload, parts.Signature) {
+			msg = "the independent verifier rejects the token"
+			return
+		}
+		if verr := ev.Verify(kp.Pub); verr != nil {
+			msg = fmt.Sprintf("Verify on the signing Evidence fails: %v", verr)
+			return
+		}
+		for _, decode := range []func([]byte) (*psatoken.Evidence, error){psatoken.DecodeAndValidateEvidenceFromCOSE, psatoken.DecodeEvidenceFromCOSE} {
+			dv, derr := decode(tok)
+			if derr != nil {
+				msg = fmt.Sprintf("the token the library made for valid claims of the registered profile %q does not decode: %v\n  token: %x", es.Name, derr, tok)
+				return
+			}
+			if fmt.Sprintf("%T", dv.Claims) != fmt.Sprintf("%T", c) {
+				msg = fmt.Sprintf("decoded claims are %T, signed ones %T", dv.Claims, c)
+				return
+			}
+			if g0, g1 := ObserveGetters(c), ObserveGetters(dv.Claims); g0 != g1 {
+				msg = fmt.Sprintf("decoded claims differ from the signed ones:\n  signed:  %s\n  decoded: %s", g0, g1)
+				return
+			}
+			if o0, o1 := extOwn(c), extOwn(dv.Claims); o0 != o1 {
+				msg = fmt.Sprintf("the extension's own claims differ: signed %s, decoded %s", o0, o1)
+				return
+			}
+			if verr := dv.Verify(kp.Pub); verr != nil {
+				msg = fmt.Sprintf("Verify on the decoded Evidence fails: %v", verr)
+				return
+			}
+		}
+	})
+	return msg, class
+}
+
 func TestC03_SignRoundTrip(t *testing.T) {
 	st := NewStats("C03", "TestC03_SignRoundTrip", "rapid: valid claims-sets of both profiles (all optional subsets, hash sizes, 1..4 components) x 7 algorithms (ES256/384/512, EdDSA, PS256/384/512) x deterministic keys, through ValidateAndSign and Sign, on a fresh Evidence or one that already signed / decoded (another algorithm's token) / failed to sign or decode; other claims-sets are encoded between signing and checking: independent parse (tag 18, 4-array, protected {1:alg}, payload byte-identical to ValidateAndEncodeClaimsToCBOR, signature length), independent verification with empty external AAD, library decode-and-validate gives identical getters, Verify succeeds on the signing and the decoded Evidence, claims equal the decoding of the split-out payload. Non-trivial = other than the canned builder sets under ES256; distinct = (alg, key, profile, class vector)")
-	st.Require = []string{"ES256", "ES384", "ES512", "EdDSA", "PS256", "PS384", "PS512", "P1", "P2", "Sign", "ValidateAndSign", "prior=fresh", "prior=decoded", "prior=signed", "alg-and-curve-differ"}
+	st.Require = []string{"ES256", "ES384", "ES512", "EdDSA", "PS256", "PS384", "PS512", "P1", "P2", "Sign", "ValidateAndSign", "prior=fresh", "prior=decoded", "prior=signed", "alg-and-curve-differ", "extension-profile", "style=ext-p2-mixedcase-uri"}
 	defer st.Flush(t)
 	rapid.Check(t, func(t *rapid.T) {
 		p := drawProf(t)
+		if rapid.IntRange(0, 9).Draw(t, "extension-profile") == 0 {
+			// "every valid claims-set": also those of registered profiles
+			// DERIVED from the built-in ones (own codec through the helpers,
+			// inherited codec, OID name, a URI that is not all lower case ...)
+			if msg, cls := c03Extension(t); msg != "" {
+				t.Fatalf("C03 violated (claims of a registered derived profile): %s", msg)
+			} else {
+				st.Case("extension|"+cls, "extension-profile", "style="+strings.SplitN(cls, "|", 2)[0])
+			}
+			return
+		}
 		m := GenValid(t, p, false)
 		c, _ := m.BuildLiteral()
 		if genBool.Draw(t, "viaSetters") {
